@@ -8,27 +8,31 @@ from props import c01, c08
 ID = 'C07'
 LEAN_MODULES = ['PybtexModel.Props.C07']
 THEOREMS = {
-    'C07_one_per_citation': 'exactly one formatted entry per resolved citation: the formatted keys are a permutation of the entries denoted by the resolved, present citations; no resolved citation loses its entry; same number of entries',
+    'C07_one_per_citation': "RELATIVE TO THE C05 RESOLUTION (resolvedKeys / resolvedEntries = the model's own addExtraCitations + drop-missing prefix of format_bibliography, characterised separately by the C05 theorems): sort, label and template neither drop nor duplicate an entry (formatted keys = a permutation of the resolved entries' keys, same number); independent part: every resolved key denotes its stored entry",
     'C07_no_duplicates': 'for well-formed entries no two formatted entries have the same key up to case (from C05_no_dup)',
-    'C07_order_none': 'sorting style none: the formatted entries come in the order of the resolved citations',
+    'C07_order_none': "sorting style none, relative to the C05 resolution (the model's own resolution prefix, see C07_one_per_citation): sort / label / template keep the order - the formatted keys are the keys of the resolved entries in the order of the resolved citations",
     'C07_key_order': 'the comparison of author_year_title (Python < on strings and on the key triples) is a strict total order',
-    'C07_order_ayt': 'sorting style author_year_title: the output is a permutation of the resolved entries, sorted by the key triple, entries with equal triples keep their citation order (stable)',
+    'C07_order_ayt': "sorting style author_year_title, relative to the C05 resolution: the output is a permutation of the resolved entries, ascending by the key triple, equal triples keep citation order (stable); 'by author/editor, year, title' is the MODEL's sortingKey (a transliteration of sorting_key; no independent spec - tied to the code by the correspondence check only)",
     'C07_sort_generic': 'the insertion sort modelling sorted() returns a sorted, stable permutation for any strict weak order',
-    'C07_number_labels': 'number labels are "1" .. "n" in output order and pairwise distinct (decimal notation is injective)',
-    'C07_alpha_labels_partial': 'alpha labels = base labels run through the suffix loop; pairwise distinct provided no unique base label equals a repeated base label plus one of its suffix letters and no label repeats more than 26 times',
+    'C07_number_labels': 'when format_bibliography succeeds with the number label style: labels are "1" .. "n" in output order and pairwise distinct (decimal notation is injective)',
+    'C07_alpha_labels_partial': "alpha labels = the MODEL's base labels (formatLabel; shape only, not agreement with alpha.bst) run through the suffix loop; pairwise distinct ONLY under alphaProviso (no unique base label equals a repeated base label plus one of its suffix letters, no label more than 26 times); without it: C07_alpha_labels_neg",
     'C07_alpha_suffix_partial': 'the suffix loop alone: no repetition under the proviso, for any list of base labels',
     'C07_alpha_labels_neg': 'witness: base labels ab, ab, aba get the labels aba, abb, aba (finding C07-alpha-suffix-collision)',
     'C07_fuel_irrelevant': 'the fuel bound of the evaluator never influences a result other than out-of-fuel',
     'C07_optional_never_missing': 'optional[...] never propagates a missing field',
     'C07_missing_required_eval': 'a FieldIsMissing(f) of the evaluator names a field/names node outside every optional whose lookup fails (field: along the crossref chain; names: the entry\'s own persons); if all required lookups succeed no such error occurs',
-    'C07_missing_iff': 'exact: the evaluation fails with FieldIsMissing(f) iff, going left to right (first_of lazily, never into a failing optional), the first node that fails is a field/names node named f whose lookup finds nothing',
-    'C07_missing_required': 'pipeline: a FieldIsMissing error names the field and the key of the first entry (in formatting order) whose template fails, all earlier entries having been formatted',
-    'C07_terminated': 'a template built from sentences (endsInSentence, decidable syntactic condition) evaluates to a text that is empty or ends with . ? or !; lifted to every formatted entry',
-    'C07_protected_case': 'from_latex puts brace groups under Protected; lower/upper/capfirst/capitalize/dashify, field apply_funcs and sentence post-processing leave the protected atoms exactly as they are',
-    'C07_field_coverage': 'for ALL templates: every field node on the successful evaluation path has a value whose text occurs contiguously in the output (up to case under capfirst/capitalize sentences); the value text is the field string as the codec decodes it, without braces (none), equal up to case (lower/capitalize), equal up to dashes (dashify); lifted to every formatted entry',
-    'C07_name_coverage': 'for ALL templates (in particular all name-style templates): every name word on the evaluated path (literal child of a name_part, reached through the name templates of a names node) is shown contiguously in the output, as the word or as word.abbreviate() when the name_part abbreviates; lifted to every formatted entry',
+    'C07_missing_iff': 'exact, evaluator level, FOR SOME FUEL: the evaluation fails with FieldIsMissing(f) for some fuel iff, going left to right (first_of lazily, never into a failing optional), the first node that fails is a field/names node named f whose lookup finds nothing (every sufficient fuel gives the same answer: C07_fuel_irrelevant)',
+    'C07_missing_required': 'pipeline, ONE DIRECTION (error => cause): a FieldIsMissing error names the field and the key of the first entry (in formatting order) whose template fails with Missing, all earlier entries having been formatted; converse: C07_missing_required_conv (under a fuel hypothesis), at evaluator level C07_missing_iff (for some fuel)',
+    'C07_missing_required_conv': "pipeline, converse direction: if labels can be formed, all entries before e in formatting order format without error, Missing holds for e's template and field f, and evalFuel suffices for that template (explicit hypothesis: the evaluation does not run out of fuel), format_bibliography fails with FieldIsMissing(f, key of e)",
+    'C07_missing_required_conv_nonvacuous': 'non-vacuity: two-entry database, the first entry formats, the second has no journal: labels form, Missing holds for journal (via C07_missing_iff), evalFuel suffices, and format_bibliography reports FieldIsMissing(journal, nj)',
+    'C07_terminated': 'CONDITIONAL on endsInSentence (decidable syntactic condition: built from sentences with add_period; a monitored invariant of the shipped templates - incollection / inproceedings never satisfy it): such a template evaluates to a text that is empty or ends with . ? or !; lifted to every formatted entry whose template satisfies it',
+    'C07_protected_case': "PER OPERATION only (whole entries: C07_protected_case_pipeline): from_latex puts brace groups under Protected; each of lower/upper/capfirst/capitalize/dashify, a sentence node's post-processing and a single non-raw field node leave the protected atoms exactly as they are",
+    'C07_protected_case_pipeline': "whole entry, ALL templates: for every formatted entry and every printed non-raw field occurrence (traversal printed) the brace-protected characters of the decoded field value occur - same characters, same case, still under Protected - as one contiguous run of the entry's protected characters (their markup stacks may gain tags / links); WHERE the run stands is not stated (C07_field_coverage, up to case)",
+    'C07_protected_case_pipeline_nonvacuous': "non-vacuity: a lower-casing title field inside a tag inside a capfirst sentence on 'on {TeX} THINGS and {B}ig' prints 'On TeX things and Big.' with protected characters T e X B = those of the value; the same through format_bibliography on the example database",
+    'C07_field_coverage': "for ALL templates: every field node in printed (nodes on the successful path; optional / first_of branches chosen by the model's own eval - relative to the evaluator; abbreviated name parts and href URLs excluded) has a value whose str(text) occurs contiguously in str(output), up to case under capfirst/capitalize sentences; value text = decoded field string without braces (none), up to case (lower/capitalize), up to dashes (dashify); lifted to every formatted entry; str(text), not backend output",
+    'C07_name_coverage': "for ALL templates (all name-style templates): every name word in printedN (literal child of a name_part on the evaluated path; branch choice by the model's own eval) is shown contiguously in str(output), as the word or as word.abbreviate() when the name_part abbreviates; lifted to every formatted entry; that the shipped name styles put every part of a person under a name_part: oracle only",
     'C07_abbreviate': 'abbreviate(): the pieces (cut at white space / hyphens outside Protected, separators kept) spell the text; the result spells, piece by piece, first character + period for an alphabetic piece (str.isalpha of the interpreter) and the piece itself otherwise',
-    'C07_unicode_keys': 'person keys of author_year_title are normalised with str.lower (idempotent; persons differing in ASCII letter case only get the same key); _strip_nonalnum yields ASCII letters and digits only (own ones and the base letters of accented characters, table regenerated from unicodedata)',
+    'C07_unicode_keys': "person keys of author_year_title are normalised with str.lower (idempotent; persons differing in ASCII letter case only get the same key); _strip_nonalnum yields ASCII letters and digits only (table regenerated from unicodedata); this is ALL that is proved about the sort key beyond the model's definition",
     'C07_alpha_base_label': 'alpha base labels (format_label): end with year[-2:] when the entry has a year; the part made from persons (format_lab_names) consists of ASCII letters, digits and + only; for ordinary entry types with authors the base label is format_lab_names(authors) + year suffix',
 }
 RULE = ('databases over all seventeen entry types, each entry with a random subset of the fields its template reads (values with braces, '
@@ -1075,10 +1079,15 @@ LEVEL_TEXT = ('Machine-checked proofs (Lean 4) over an executable model of the P
               'Text.from_latex (the codec result is data), BaseText.abbreviate, the sorting styles none / author_year_title (str.lower of the '
               'interpreter), the label styles number / alpha (NFD accent stripping and str.isalpha from regenerated tables) and '
               'BaseStyle.format_bibliography = resolve (C05) -> drop missing -> sort -> label -> template.  Proved for ALL databases, citation '
-              'lists, templates and name templates: one formatted entry per resolved citation, citation order resp. stable sort by the key triple '
-              '(a strict total order), number labels 1..n distinct, alpha labels distinct under an explicit decidable proviso, FieldIsMissing '
-              'characterised exactly (which node, which entry), terminating punctuation for sentence-built templates, protected text untouched, '
-              'every printed field value and every name word (or its abbreviation: first letter + period, characterised) occurs in the output.  '
+              'lists, templates and name templates: RELATIVE TO THE C05 RESOLUTION (the resolved citations are the model\'s own C05 prefix of '
+              'format_bibliography, characterised by the C05 theorems) sort, label and template neither drop nor duplicate an entry, sorting style '
+              'none keeps citation order, author_year_title is a stable sorted permutation by the model\'s key triple (a strict total order; the '
+              'triple itself has no independent spec), number labels 1..n distinct, alpha labels distinct under an explicit decidable proviso, '
+              'FieldIsMissing characterised exactly at evaluator level (for some fuel) and in both directions at pipeline level (the converse '
+              'under an explicit fuel hypothesis), terminating punctuation for templates satisfying the syntactic condition endsInSentence, '
+              'protected text untouched per operation AND for whole entries (the protected characters of every printed field value survive, same '
+              'case, still protected, in the entry), every printed field value and every name word (or its abbreviation: first letter + period, '
+              'characterised) occurs in str(text) of the output (up to case under capfirst / capitalize).  '
               'The model is tied to the code by a correspondence check over all 17 entry types x 4 styles x every label / sorting / name style / '
               'abbreviation combination in which the templates of the live style objects are serialised and evaluated by the Lean evaluator and '
               'the result is compared as rich text and as rendered by each of the four backends; the configuration the oracle and the model use '
@@ -1094,8 +1103,15 @@ LEVEL_NOTE = ('Trusted: Lean kernel; axioms propext/Classical.choice/Quot.sound 
               'the code with proposed fixes C05-1 / C14-1 / C14-2 / C08-1..5 applied.  Alpha labels are NOT always distinct: '
               'C07_alpha_labels_partial + C07_alpha_labels_neg, known finding C07-alpha-suffix-collision (a unique base label equal to a repeated '
               'one plus its suffix letter); the alpha base labels (format_label) are modelled and compared, the oracle takes them as the reference '
-              'for "BibTeX alpha labels"; theorems about them: C07_alpha_base_label, C07_unicode_keys (shape, not agreement with alpha.bst).  Field coverage is stated on str(text) for the field nodes '
-              'on the successful path (printed); the URL of an href (link target, not text) is excluded; a names node is required of the entry '
+              'for "BibTeX alpha labels"; theorems about them: C07_alpha_base_label, C07_unicode_keys (shape, not agreement with alpha.bst).  The order / completeness theorems are relative to resolvedKeys / resolvedEntries, which are verbatim the '
+              'first three lets of the model\'s formatBibliography (C05\'s addExtraCitations, drop missing): they establish what sort, label and '
+              'template do to that list, not an independent notion of "resolved citation"; "by author/editor, year, title" is the model\'s '
+              'sortingKey (transliterated from sorting_key; C07_unicode_keys gives idempotence and case-insensitivity of the person key only).  '
+              'C07_missing_required_conv needs "evalFuel suffices" as a hypothesis.  C07_protected_case_pipeline says the protected characters '
+              'of a printed field value form a contiguous run of the entry\'s protected characters, not where that run stands in the text.  '
+              'Field coverage is stated on str(text) for the field nodes '
+              'on the successful path (printed / printedN use the model\'s own eval / evalList to choose optional / first_of branches; abbreviated '
+              'name_part children are covered by C07_name_coverage only); the URL of an href (link target, not text) is excluded; a names node is required of the entry '
               'itself (no crossref inheritance) by design of the code.  Not proved: that evalFuel = 1000 suffices for every template '
               '(C07_fuel_irrelevant shows fuel never changes a result; the model reports out-of-fuel as its own error, never observed); the '
               'backends (C09; here compared per entry through Model/Backends.lean); PybtexEngine.format_from_files (second implementation path, '
